@@ -206,6 +206,9 @@ func (a *APK) installAPKFiles(ctx context.Context, in io.Reader, pkg *Package) (
 		if err != nil {
 			return nil, err
 		}
+		if header.Name == "" {
+			return nil, errors.New("package contains a tar entry with an empty name")
+		}
 		// if it was a hidden file and not a directory and we have not yet started the data section,
 		// so skip this file
 		if !startedDataSection && header.Name[0] == '.' && !strings.Contains(header.Name, "/") {
@@ -323,6 +326,9 @@ func (a *APK) lazilyInstallAPKFiles(ctx context.Context, wh WriteHeaderer, tf *t
 
 	var startedDataSection bool
 	for _, file := range entries {
+		if file.Header.Name == "" {
+			return nil, fmt.Errorf("package %s contains a tar entry with an empty name", pkg.Name)
+		}
 		// per https://git.alpinelinux.org/apk-tools/tree/src/extract_v2.c?id=337734941831dae9a6aa441e38611c43a5fd72c0#n120
 		//  * APKv1.0 compatibility - first non-hidden file is
 		//  * considered to start the data section of the file.
